@@ -34,16 +34,26 @@ func init() {
 	_ = os.Setenv("no_proxy", "*")
 }
 
-// ---- two real TLS servers for the RoundTrip op: A answers, B fails every handshake ----
+// ---- the network of the RoundTrip op: four listeners on every loopback address ----
+//
+//	port 1 = A  answers every request
+//	port 2 = B  refuses every TLS handshake (after reading the ClientHello)
+//	port 3 = C  accepts the TCP connection and closes it at once
+//	port 4 = F  flaky: drops the first K connections of each request after reading the request head, answers later ones
+//	            (K is an argument of the op)
+//
+// The fake DNS gives every host name its own loopback address, so each server knows -- from the local address of the
+// accepted connection -- which NAME was dialled. Every connection attempt is recorded as
+// <server>,<hx dialled host>[,<hx SNI>[,<hx Host header>]]  (D = dropped by F, F = answered by F).
 
 var (
-	c16RtOnce  sync.Once
-	c16RtA     *httptest.Server
-	c16RtB     *httptest.Server
-	c16RtMu    sync.Mutex
-	c16RtTrace []string
-	c16RtPortA string
-	c16RtPortB string
+	c16RtOnce   sync.Once
+	c16RtMu     sync.Mutex
+	c16RtTrace  []string
+	c16RtPorts  [5]string // real ports of 1..4
+	c16RtNames_ = map[string]string{} // loopback address -> name it was handed out for (per op)
+	c16RtFlakyK int
+	c16RtFlakyN int
 )
 
 func c16RtRecord(s string) {
@@ -52,46 +62,129 @@ func c16RtRecord(s string) {
 	c16RtMu.Unlock()
 }
 
-// c16RtUnmap replaces the real ports by the symbolic ones (1 = A, 2 = B) in an observed string.
+// c16RtUnmap replaces the real ports by the symbolic ones in an observed string.
 func c16RtUnmap(s string) string {
-	s = strings.ReplaceAll(s, ":"+c16RtPortA, ":1")
-	return strings.ReplaceAll(s, ":"+c16RtPortB, ":2")
-}
-
-func c16RtMap(s string) string {
-	if strings.HasSuffix(s, ":1") {
-		return s[:len(s)-1] + c16RtPortA
-	}
-	if strings.HasSuffix(s, ":2") {
-		return s[:len(s)-1] + c16RtPortB
+	for k := 1; k <= 4; k++ {
+		s = strings.ReplaceAll(s, ":"+c16RtPorts[k], ":"+strconv.Itoa(k))
 	}
 	return s
 }
 
+func c16RtMap(s string) string {
+	for k := 1; k <= 4; k++ {
+		if strings.HasSuffix(s, ":"+strconv.Itoa(k)) {
+			return s[:len(s)-1] + c16RtPorts[k]
+		}
+	}
+	return s
+}
+
+// c16RtAddrOf: the loopback address the fake DNS answers with for a name (a function of the name).
+func c16RtAddrOf(name string) net.IP {
+	name = strings.ToLower(strings.TrimSuffix(name, "."))
+	h := uint32(2166136261)
+	for i := 0; i < len(name); i++ {
+		h = (h ^ uint32(name[i])) * 16777619
+	}
+	ip := net.IPv4(127, byte(1+h%100), byte((h>>8)%250), byte(1+(h>>16)%250))
+	c16RtMu.Lock()
+	c16RtNames_[ip.String()] = name
+	c16RtMu.Unlock()
+	return ip
+}
+
+// c16RtDialled names what was dialled, given the local address of an accepted connection.
+func c16RtDialled(a net.Addr) string {
+	host, _, err := net.SplitHostPort(a.String())
+	if err != nil {
+		return "?"
+	}
+	c16RtMu.Lock()
+	defer c16RtMu.Unlock()
+	if n, ok := c16RtNames_[host]; ok {
+		return hx([]byte(n))
+	}
+	return hx([]byte(host))
+}
+
 func c16RtServers() {
 	c16RtOnce.Do(func() {
-		var pendingSNI sync.Map // remote address -> SNI, so that the handler can report the SNI of its connection
-		c16RtA = httptest.NewUnstartedServer(http.HandlerFunc(func(w http.ResponseWriter, r *http.Request) {
+		listen := func() net.Listener {
+			l, err := net.Listen("tcp4", "0.0.0.0:0")
+			if err != nil {
+				panic("harness: cannot listen: " + err.Error())
+			}
+			return l
+		}
+		var pendingSNI sync.Map // remote address -> SNI, so that a handler can report the SNI of its connection
+		sniOf := func(r *http.Request) string {
 			sni, _ := pendingSNI.Load(r.RemoteAddr)
-			c16RtRecord("A," + hx([]byte(fmt.Sprint(sni))) + "," + hx([]byte(c16RtUnmap(r.Host))))
-			w.Header().Set("Content-Type", "application/json")
-			_, _ = w.Write([]byte("{}"))
-		}))
-		c16RtA.Config.ErrorLog = nil
-		c16RtA.TLS = &tls.Config{GetConfigForClient: func(h *tls.ClientHelloInfo) (*tls.Config, error) {
+			return hx([]byte(fmt.Sprint(sni)))
+		}
+		dialOf := func(r *http.Request) string {
+			if a, ok := r.Context().Value(http.LocalAddrContextKey).(net.Addr); ok {
+				return c16RtDialled(a)
+			}
+			return "?"
+		}
+		keepSNI := &tls.Config{GetConfigForClient: func(h *tls.ClientHelloInfo) (*tls.Config, error) {
 			pendingSNI.Store(h.Conn.RemoteAddr().String(), h.ServerName)
 			return nil, nil
 		}}
-		c16RtA.StartTLS()
-		c16RtB = httptest.NewUnstartedServer(http.HandlerFunc(func(w http.ResponseWriter, r *http.Request) {}))
-		c16RtB.Config.ErrorLog = nil
-		c16RtB.TLS = &tls.Config{GetConfigForClient: func(h *tls.ClientHelloInfo) (*tls.Config, error) {
-			c16RtRecord("B," + hx([]byte(h.ServerName)))
+		start := func(srv *httptest.Server, cfg *tls.Config) string {
+			srv.Listener.Close()
+			srv.Listener = listen()
+			srv.Config.ErrorLog = nil
+			srv.TLS = cfg
+			srv.StartTLS()
+			_, port, _ := net.SplitHostPort(srv.Listener.Addr().String())
+			return port
+		}
+		a := httptest.NewUnstartedServer(http.HandlerFunc(func(w http.ResponseWriter, r *http.Request) {
+			c16RtRecord("A," + dialOf(r) + "," + sniOf(r) + "," + hx([]byte(c16RtUnmap(r.Host))))
+			w.Header().Set("Content-Type", "application/json")
+			_, _ = w.Write([]byte("{}"))
+		}))
+		c16RtPorts[1] = start(a, keepSNI)
+		b := httptest.NewUnstartedServer(http.HandlerFunc(func(w http.ResponseWriter, r *http.Request) {}))
+		c16RtPorts[2] = start(b, &tls.Config{GetConfigForClient: func(h *tls.ClientHelloInfo) (*tls.Config, error) {
+			c16RtRecord("B," + c16RtDialled(h.Conn.LocalAddr()) + "," + hx([]byte(h.ServerName)))
 			return nil, errors.New("stub: handshake refused")
-		}}
-		c16RtB.StartTLS()
-		_, c16RtPortA, _ = net.SplitHostPort(c16RtA.Listener.Addr().String())
-		_, c16RtPortB, _ = net.SplitHostPort(c16RtB.Listener.Addr().String())
+		}})
+		cl := listen()
+		_, c16RtPorts[3], _ = net.SplitHostPort(cl.Addr().String())
+		go func() {
+			for {
+				conn, err := cl.Accept()
+				if err != nil {
+					return
+				}
+				c16RtRecord("C," + c16RtDialled(conn.LocalAddr()))
+				_ = conn.Close()
+			}
+		}()
+		f := httptest.NewUnstartedServer(http.HandlerFunc(func(w http.ResponseWriter, r *http.Request) {
+			c16RtMu.Lock()
+			c16RtFlakyN++
+			drop := c16RtFlakyN <= c16RtFlakyK
+			c16RtMu.Unlock()
+			rec := "," + dialOf(r) + "," + sniOf(r) + "," + hx([]byte(c16RtUnmap(r.Host)))
+			if drop {
+				c16RtRecord("D" + rec)
+				if hj, ok := w.(http.Hijacker); ok {
+					if conn, _, err := hj.Hijack(); err == nil {
+						_ = conn.Close()
+						return
+					}
+				}
+				panic(http.ErrAbortHandler)
+			}
+			c16RtRecord("F" + rec)
+			w.Header().Set("Connection", "close") // one request per connection: K counts connections
+			w.Header().Set("Content-Type", "application/json")
+			_, _ = w.Write([]byte("{}"))
+		}))
+		c16RtPorts[4] = start(f, keepSNI)
 	})
 }
 
@@ -142,7 +235,7 @@ type c16SrvAnswer struct {
 }
 
 type c16FakeDNS struct {
-	answerA bool // every name has the address 127.0.0.1 (RoundTrip op)
+	answerA bool // every name has an address: its own loopback address (RoundTrip op)
 	mu     sync.Mutex
 	script map[string]c16SrvAnswer // lower-case "_svc._tcp.name." -> answer
 	asked  []string
@@ -167,7 +260,7 @@ func (f *c16FakeDNS) answer(q *dns.Msg) *dns.Msg {
 	ans, found = f.script[qn]
 	f.mu.Unlock()
 	if q.Question[0].Qtype == dns.TypeA && f.answerA {
-		m.Answer = append(m.Answer, &dns.A{Hdr: dns.RR_Header{Name: q.Question[0].Name, Rrtype: dns.TypeA, Class: dns.ClassINET, Ttl: 60}, A: net.IPv4(127, 0, 0, 1)})
+		m.Answer = append(m.Answer, &dns.A{Hdr: dns.RR_Header{Name: q.Question[0].Name, Rrtype: dns.TypeA, Class: dns.ClassINET, Ttl: 60}, A: c16RtAddrOf(q.Question[0].Name)})
 		return m
 	}
 	if q.Question[0].Qtype == dns.TypeAAAA && f.answerA {
@@ -352,6 +445,8 @@ func execResolve(op string, args []string) string {
 			asked[i] = hx([]byte(a))
 		}
 		return out + "|wk=" + strings.Join(asked, ",")
+	case "roundtrip_props":
+		return "ok" // the driver evaluates the property's clauses on the implementation's answer carried in the op
 	case "roundtrip":
 		c16RtServers()
 		name := c16RtMap(string(unhx(args[0])))
@@ -365,24 +460,28 @@ func execResolve(op string, args []string) string {
 		script := c16ParseSrvScript(args[2])
 		for k, a := range script {
 			for i := range a.recs {
-				switch a.recs[i].port {
-				case 1:
-					p, _ := strconv.Atoi(c16RtPortA)
-					a.recs[i].port = uint16(p)
-				case 2:
-					p, _ := strconv.Atoi(c16RtPortB)
-					a.recs[i].port = uint16(p)
+				if p := int(a.recs[i].port); p >= 1 && p <= 4 {
+					rp, _ := strconv.Atoi(c16RtPorts[p])
+					a.recs[i].port = uint16(rp)
 				}
 			}
 			script[k] = a
+		}
+		flakyK := 0
+		if len(args) > 3 {
+			flakyK, _ = strconv.Atoi(args[3])
 		}
 		d := &c16FakeDNS{script: script, answerA: true}
 		var out []string
 		c16WithStubs(t, d, func() {
 			client := fclient.NewClient(fclient.WithWellKnownSRVLookups(true), fclient.WithSkipVerify(true), fclient.WithTimeout(5*time.Second))
+			c16RtMu.Lock()
+			c16RtNames_ = map[string]string{}
+			c16RtMu.Unlock()
 			for i := 0; i < 2; i++ {
 				c16RtMu.Lock()
 				c16RtTrace = nil
+				c16RtFlakyK, c16RtFlakyN = flakyK, 0
 				c16RtMu.Unlock()
 				t.mu.Lock()
 				t.asked = nil
@@ -552,8 +651,8 @@ func (r *Rng) c16GenSrvScript(names ...string) string {
 	return strings.Join(parts, ",")
 }
 
-var c16RtNames = []string{"hs.test", "hs.test", "hs.test", "other.test", "other.test", "hs.test", "127.0.0.1:1", "127.0.0.1:2", "127.0.0.1:3", "localhost:1", "hs.test:1", "hs.test:2", "hs.test", "other.test", "127.0.0.1", "hs.test:3", "a_b.test"}
-var c16RtDelegates = []string{"127.0.0.1:1", "127.0.0.1:2", "deleg.test:1", "deleg.test:2", "deleg.test", "deleg.test:3", "127.0.0.1", "[::1", "localhost:1"}
+var c16RtNames = []string{"hs.test", "hs.test", "hs.test", "other.test", "other.test", "hs.test", "127.0.0.1:1", "127.0.0.1:2", "127.0.0.1:3", "127.0.0.1:4", "localhost:1", "hs.test:1", "hs.test:2", "hs.test:4", "hs.test", "other.test", "127.0.0.1", "hs.test:3", "a_b.test"}
+var c16RtDelegates = []string{"127.0.0.1:1", "127.0.0.1:2", "127.0.0.1:4", "deleg.test:1", "deleg.test:2", "deleg.test:4", "deleg.test", "deleg.test:3", "127.0.0.1", "[::1", "localhost:1"}
 var c16RtTargets = []string{"t1.test.", "t2.test.", "localhost.", "t3.sub.test."}
 
 func (r *Rng) c16GenRtAnswer() string {
@@ -563,16 +662,76 @@ func (r *Rng) c16GenRtAnswer() string {
 	case 1:
 		return "err"
 	case 2, 3:
-		return fmt.Sprintf("r:%s~%d", hx([]byte(Pick(r, c16RtTargets))), 1+r.Intn(3))
+		return fmt.Sprintf("r:%s~%d", hx([]byte(Pick(r, c16RtTargets))), 1+r.Intn(4))
 	case 4:
 		n := 2 + r.Intn(3)
 		parts := make([]string, n)
 		for i := range parts {
-			parts[i] = fmt.Sprintf("%s~%d", hx([]byte(Pick(r, c16RtTargets))), 1+r.Intn(3))
+			parts[i] = fmt.Sprintf("%s~%d", hx([]byte(Pick(r, c16RtTargets))), 1+r.Intn(4))
 		}
 		return "r:" + strings.Join(parts, ";")
 	}
 	return ""
+}
+
+// c16DoRoundTrip runs one roundtrip op and the property op that carries its answer.
+func c16DoRoundTrip(o *Out, name, wk, script string, flaky int) string {
+	args := []string{hx([]byte(name)), wk, script, strconv.Itoa(flaky)}
+	res := o.Do("roundtrip", args...)
+	if strings.Contains(res, "|ok") {
+		o.Count("roundtrip.reached")
+	} else {
+		o.Count("roundtrip.failed")
+	}
+	if strings.Contains(res, ";") {
+		o.Count("roundtrip.several-attempts")
+	}
+	if strings.HasPrefix(res, "rt:") {
+		o.Do("roundtrip_props", append(args, hx([]byte(res)))...)
+	}
+	return res
+}
+
+// c16GenRetry: every target of the first pass fails -- once (the retry pass then gets through), or for good -- for
+// names reached through SRV records, through a well-known delegation (to a name with SRV records, to a name with an
+// explicit port, to an address literal) and directly (explicit port: the control). K = number of connections the
+// flaky server (port 4) drops per request.
+func c16GenRetry(o *Out, r *Rng, rounds int) {
+	srv := func(svc, name string, targets ...string) string {
+		var recs []string
+		for _, t := range targets {
+			recs = append(recs, hx([]byte(t))+"~4")
+		}
+		return svc + "|" + hx([]byte(name)) + "|r:" + strings.Join(recs, ";")
+	}
+	for round := 0; round < rounds; round++ {
+		for n := 1; n <= 3; n++ {
+			targets := append([]string{}, c16RtTargets[:2]...)
+			targets = append(targets, "t3.sub.test.")
+			r.shuffleStrings(targets)
+			targets = targets[:n]
+			for _, k := range []int{n - 1, n, n + 1, 2 * n} {
+				svc := Pick(r, []string{"matrix-fed", "matrix"})
+				// through SRV
+				res := c16DoRoundTrip(o, "hs.test", Pick(r, []string{"N404", "N500", "Nbad"}), srv(svc, "hs.test", targets...), k)
+				o.Count("retry.srv")
+				if round == 0 && n == 1 && k == 1 {
+					o.Sample(fmt.Sprintf("roundtrip(retry) hs.test srv -> %s:4 flaky=1 -> %s", targets[0], res))
+				}
+				// through a well-known delegation to a name that has SRV records
+				c16DoRoundTrip(o, "hs.test", "S"+hx([]byte("deleg.test")), srv(svc, "deleg.test", targets...), k)
+				o.Count("retry.wellknown-srv")
+			}
+		}
+		for _, k := range []int{0, 1, 2} {
+			// delegation to a name with an explicit port / to an address literal / no delegation, explicit port
+			c16DoRoundTrip(o, "hs.test", "S"+hx([]byte("deleg.test:4")), ".", k)
+			c16DoRoundTrip(o, "other.test", "S"+hx([]byte("127.0.0.1:4")), ".", k)
+			c16DoRoundTrip(o, "hs.test:4", "N404", ".", k)
+			c16DoRoundTrip(o, "127.0.0.1:4", "N404", ".", k)
+			o.Count("retry.direct")
+		}
+	}
 }
 
 // c16GenRoundTrip: RoundTrip of a fresh client, twice per op (the second request sees the resolution cache).
@@ -600,12 +759,7 @@ func c16GenRoundTrip(o *Out, r *Rng, n int) {
 		if len(parts) > 0 {
 			script = strings.Join(parts, ",")
 		}
-		res := o.Do("roundtrip", hx([]byte(name)), wk, script)
-		if strings.Contains(res, "|ok") {
-			o.Count("roundtrip.reached")
-		} else {
-			o.Count("roundtrip.failed")
-		}
+		res := c16DoRoundTrip(o, name, wk, script, Pick(r, []int{0, 0, 1, 1, 2, 3}))
 		if i < 2 {
 			o.Sample(fmt.Sprintf("roundtrip %q wk=%q srv=%s -> %s", name, deleg, script, res))
 		}
@@ -667,6 +821,11 @@ func genResolve(o *Out, tier string, r *Rng) {
 			}
 		}
 		o.Count("exhaustive.resolve-product")
+	}
+	if tier == "thorough" {
+		c16GenRetry(o, r, 20)
+	} else {
+		c16GenRetry(o, r, 2)
 	}
 	c16GenRoundTrip(o, r, n/8)
 	for i := 0; i < n; i++ {
